@@ -17,7 +17,7 @@ CONSTANT TraceFile
 Trace == ndJsonDeserialize(TraceFile)
 
 VARIABLE l
-tvars == <<l, meta, chunk, wpc, rpc, rmeta, rgot, rres, losses>>
+tvars == <<l, meta, chunk, wpc, rpc, rmeta, rgot, rres, losses, apc, ameta, agot>>
 Ev == Trace[l]
 Report(kind, want, got) == PrintT("MISMATCH " \o ToJson([l |-> l, kind |-> kind, want |-> want, got |-> got]))
 
@@ -28,9 +28,10 @@ Reset == /\ Ev.ev \in {"reset", "end", "stuck", "foreign"}
          /\ (IF Ev.ev = "foreign" THEN Report("ForeignKey", "", Ev.key) ELSE TRUE)
          /\ IF Ev.ev = "reset"
             THEN \* Ev.pre names a writer whose value was stored completely before the race started
-                 /\ meta' = IF Ev.pre \in Writers THEN [tok |-> Ev.pre, n |-> N[Ev.pre]] ELSE None
-                 /\ chunk' = [i \in Slots |-> IF Ev.pre \in Writers /\ i < N[Ev.pre] THEN [tok |-> Ev.pre, i |-> i] ELSE None]
-                 /\ wpc' = [w \in Writers |-> IF w = Ev.pre THEN N[w] ELSE -1] /\ rpc' = [r \in Readers |-> -1]
+                 /\ meta' = IF Ev.pre \in Writers THEN [tok |-> Ev.pre, n |-> N[Ev.pre], by |-> Ev.pre] ELSE None
+                 /\ chunk' = [i \in Slots |-> IF Ev.pre \in Writers /\ i < N[Ev.pre] THEN [tok |-> Ev.pre, i |-> i, by |-> Ev.pre] ELSE None]
+                 /\ wpc' = [w \in Writers |-> IF w = Ev.pre THEN N[w] ELSE IF Grows(w) THEN -3 ELSE -1] /\ rpc' = [r \in Readers |-> -1]
+                 /\ apc' = [w \in Writers |-> -1] /\ ameta' = [w \in Writers |-> None] /\ agot' = [w \in Writers |-> <<>>]
                  /\ rmeta' = [r \in Readers |-> None] /\ rgot' = [r \in Readers |-> <<>>]
                  /\ rres' = [r \in Readers |-> <<"pending">>] /\ losses' = 0
             ELSE UNCHANGED vars
@@ -42,7 +43,10 @@ Breq ==
   /\ Ev.ev = "breq"
   /\ LET c == Ev.c  s == Ev.slot IN
      IF c \in Writers
-     THEN IF s = -1 /\ wpc[c] = -1 THEN WMeta(c)
+     THEN IF wpc[c] = -3 /\ s = -1 /\ apc[c] = -1 THEN AMeta(c)
+          ELSE IF wpc[c] = -3 /\ s = -2 /\ ameta[c] # None /\ apc[c] = ameta[c].n THEN ANoop(c)
+          ELSE IF wpc[c] = -3 /\ s >= 0 /\ ameta[c] # None /\ apc[c] = s /\ s < ameta[c].n THEN AGetQ(c)
+          ELSE IF s = -1 /\ wpc[c] = -1 THEN WMeta(c)
           ELSE IF s >= 0 /\ wpc[c] = s /\ s < N[c] THEN WChunk(c)
           ELSE Unexpected
      ELSE IF s = -1 /\ rpc[c] = -1 THEN RMeta(c)
@@ -54,8 +58,8 @@ Breq ==
 Lose ==
   /\ Ev.ev = "lose"
   /\ IF Ev.slot = -1
-     THEN meta' = None /\ UNCHANGED <<chunk, wpc, rpc, rmeta, rgot, rres, losses>>
-     ELSE chunk' = [chunk EXCEPT ![Ev.slot] = None] /\ UNCHANGED <<meta, wpc, rpc, rmeta, rgot, rres, losses>>
+     THEN meta' = None /\ UNCHANGED <<chunk, wpc, rpc, rmeta, rgot, rres, losses, avars>>
+     ELSE chunk' = [chunk EXCEPT ![Ev.slot] = None] /\ UNCHANGED <<meta, wpc, rpc, rmeta, rgot, rres, losses, avars>>
 
 Ret ==
   /\ Ev.ev = "ret"
